@@ -1,4 +1,4 @@
-\* (V) model-bound validation against the REPAIRED model (the four repairs committed in /repo: ec05f82 3e6d084 c96f37d c700d6c; the forwarders still ignore `terminated`, known finding c)
+\* (V) model-bound validation against the REPAIRED model (the repairs committed in /repo: ec05f82 c96f37d c700d6c; continue still responds before its fallible step, the forwarders still ignore `terminated`, known finding c)
 SPECIFICATION TraceSpec
 CONSTANTS
   MaxReq = 100000
@@ -7,7 +7,7 @@ CONSTANTS
   PreLines = 64
   PostLines = 64
   SeqUnderLock = TRUE
-  RespondAfter = TRUE
+  RespondAfter = FALSE
   FwdHonoursTerm = FALSE
   InitViaQueue = TRUE
   ClearCache = TRUE
